@@ -357,9 +357,13 @@ def check_exact_splitter(prog, report):
     for s in ('%s < %s' % (xa, xb), '%s < %s' % (ya, yb)):
         st0.assume(ast.parse(s, mode='eval').body)
     w.walk_function(fi.node, st0)
-    XA, XB, YA, YB = (Lin({n: 1}) for n in (xa, xb, ya, yb))
     n = 0
     for st, state in w.rets:
+        # the panel is what the four space parameters hold *here* (an
+        # in-place exchange of the two intervals is the same as the
+        # recursive call with exchanged arguments)
+        XA, XB, YA, YB = (state.lin(ast.Name(id=n_, ctx=ast.Load()))
+                          for n_ in (xa, xb, ya, yb))
         terms = sum_terms(st.value)
         where = fi.where(st)
         rects = []
